@@ -238,6 +238,10 @@ def _gen_case(rng, tier, direction=None, feats=None):
             case['calEarly'] = [[nm, 'replace', rng.choice(CALS)(rng)]]
         if rng.random() < 0.6 and not case.get('prior'):
             case['prior'] = 'ok'
+    if d == 'fwd' and feats.get('noStart') and rng.random() < 0.1:
+        # the scheduler is built without a start: the project start is what the clock says when the scheduler is built
+        case['noStart'] = True
+        case['bound'] = case['clock'][0] - case.get('ctorLead', 0)
     if rng.random() < 0.3:
         case['objAttrs'] = True
     if rng.random() < 0.3:
@@ -305,7 +309,7 @@ def random_case(prop, rng, tier):
     d = {'C02': 'fwd', 'C08': 'fwd', 'C09': 'bwd'}.get(prop)
     if prop == 'C06':
         d = 'fwd' if rng.random() < 0.7 else 'bwd'       # (clock independence is a forward-only clause; the others hold for either scheduler)
-    return gen_case(rng, tier, d, {'dust': prop == 'C04', 'bwd_fixed': prop in ('C07', 'C03', 'C14')})
+    return gen_case(rng, tier, d, {'dust': prop == 'C04', 'bwd_fixed': prop in ('C07', 'C03', 'C14'), 'noStart': prop == 'C06'})
 
 
 # ------------------------------------------------------------------------------------ building the real objects
@@ -504,7 +508,7 @@ def _dust(r):
         return False
 
 
-def run_calc(case, w, objs, clock=None, scheduler=None, main=False, between=None):
+def run_calc(case, w, objs, clock=None, scheduler=None, main=False, between=None, explicit_start=False):
     """one calc under the scripted clock; returns (obs dict, scheduler object).  `main`: the case's own run - the scheduler is built with
     the resources' earlier calendars (if any), used once (`prior`), then `between()` makes the late changes (calendars, a held link)"""
     from pjplan import ForwardScheduler, BackwardScheduler
@@ -514,6 +518,8 @@ def run_calc(case, w, objs, clock=None, scheduler=None, main=False, between=None
         set_clock([(clock or case['clock'])[0] - case.get('ctorLead', 0)])
         cls = ForwardScheduler if case['dir'] == 'fwd' else BackwardScheduler
         kw = {'start' if case['dir'] == 'fwd' else 'end': from_us(case['bound'])}
+        if case.get('noStart') and case['dir'] == 'fwd' and clock is None and not explicit_start:
+            kw = {}
         scheduler = cls(resources=resources_of(case, initial=main), balance_resources=case['balance'],
                         default_estimate=py_num(case['defaultEst'], False), **kw)
         changes = list(resources_of.changes)
@@ -655,6 +661,10 @@ def execute(prop, case):
         obs2, _ = run_calc(case, w, objs, scheduler=sched)
         obs3, _ = run_calc(case, w, objs)
         rec['repeat'] = [strip(obs2) == strip(obs), strip(obs3) == strip(obs)]
+        if case.get('noStart'):
+            # a scheduler built without `start` is one built with start = the clock at that moment
+            obs5, _ = run_calc(case, w, objs, explicit_start=True)
+            rec['default_start'] = strip(obs5) == strip(obs)
         rec['pure'] = rec['pure'] and snapshot(w, objs) == before
         if case['dir'] == 'fwd' and max(case['clock']) <= case['bound']:
             alts = []
@@ -769,7 +779,7 @@ MON_OF = {
     'C14': ['c14Outcome', 'c14Diagnosed', 'c14DeadResource'],
     'C08': ['c08NoIdle', 'c08Encode', 'c08Order', 'c08Removal'],
     'C09': ['c09Deadline', 'c09Deps', 'c09LatePacked', 'c09Encode'],
-    'C06': ['pure', 'separate', 'structure', 'datesPresent', 'repeatSameObject', 'repeatFresh', 'clockIndep', 'schedulableReturns'],
+    'C06': ['pure', 'separate', 'structure', 'datesPresent', 'repeatSameObject', 'repeatFresh', 'clockIndep', 'schedulableReturns', 'defaultStartIsClock'],
 }
 # hypotheses of the proved `_partial` theorems, per failing clause (a failure outside them is a finding candidate)
 HYP_OF = {
@@ -863,6 +873,8 @@ def judge(prop, case, rec, out):
             mon['structure'] = rec.get('structure_same', True)
             mon['datesPresent'] = all(t[0] is not None and t[1] is not None for t in obs['tasks'])
             mon['repeatSameObject'], mon['repeatFresh'] = rec['repeat']
+            if 'default_start' in rec:
+                mon['defaultStartIsClock'] = rec['default_start']
             if 'clock_indep' in rec:
                 mon['clockIndep'] = all(rec['clock_indep'])
     if prop == 'C08' and 'removal_same' in rec:
